@@ -317,7 +317,7 @@ H("pq.VerifQueueFault", "a flush / ACK whose transaction fails (injected write/s
          H("pq.VerifPqPosition", "position encoding round trip for every page id < 2^40, offset in [28,1024], event id; id ordering with wrap-around", "full-width symbolic"),
          H("pq.VerifPqBuffer", "writer page buffer step lemma (pq/buffer.go): ReserveHdr/Append/CommitEvent/Pages/Reset against an independent byte-placement reference; "
            "page bytes, EndOff, FirstOff/FirstID/LastID, Avail accounting, header never split, flush range = pages with unflushed committed bytes",
-           "64-byte pages, 8 boundary event sizes, symbolic bytes/header/first id, 1-2 Append chunks; 2 events, simulated flush + Reset, 1 event (thorough: 2+2)",
+           "64-byte pages, 8 boundary event sizes, symbolic bytes/header/first id, 1-2 Append chunks; 2 events, simulated flush + Reset, optional re-creation of the buffer from the flushed tail page image (NewPageWith/newBuffer(tail)), 1 event (thorough: 2+2)",
            quick={"params": {"events": 2, "events2": 1}}, thorough={"params": {"events": 2, "events2": 2}, "max_paths": 200000, "budget": "900s"}),
      ])
 
